@@ -39,6 +39,8 @@ def main():
                             res[pid]["replay_what"] = j.get("what")
                             res[pid]["replay_case"] = (j.get("case") or "")[:300]
                             res[pid]["broken"] = j.get("broken") or j.get("also_broken")
+                    if c.returncode == 1 and meta.get("stop_first"):
+                        break
                 meta["last_run"] = {"applied": True, "results": res,
                                     "caught": any(v["exit"] == 1 for v in res.values())}
             finally:
